@@ -211,6 +211,7 @@ func TestPrivateUntilCommitAndCopies(t *testing.T) {
 		ev.ExtraAdd("hits", int64(r.Hits))
 		ev.ExtraAdd("direct_block_writes", int64(r.DirectBlockWrites))
 		ev.ExtraAdd("lookups_answered_20_or_more_links_back", int64(r.DeepWalks))
+		ev.ExtraAdd("lookups_answered_100_or_more_links_back", int64(r.VeryDeepWalks))
 		ev.ExtraAdd("must_hit_lookups", int64(r.MustHits))
 		if nt && ev.WantSample() {
 			lg := r.Log
